@@ -173,6 +173,14 @@ def plain_statements():
                 out.append((f'plain-{tname}|0||{"distinct" if distinct else ""}|{"limit" if limit is not None else ""}#{limit}',
                             select(targets, from_='t', distinct=distinct, limit=limit)))
         out.append((f'plain-{tname}-where|0||distinct|limit#1', select(targets, from_='t', where=A.IsNotNull(col('v')), distinct=True, limit=1)))
+    # duplicated output names: every visible column stays addressable by its POSITION
+    for d in (ASC, DESC):
+        dn = 'D' if d == DESC else 'A'
+        dup = [(col('id'), 'id'), (col('k'), 'x'), (col('v'), 'x')]
+        for pos in (1, 2, 3):
+            out.append((f'dup-names-pos{pos}|1|{dn}||', select(dup, from_='t', order_by=[A.OrderBy(pos, d)])))
+        out.append((f'dup-names-pos32|2|{dn}{dn}||', select(dup, from_='t', order_by=[A.OrderBy(3, d), A.OrderBy(2, d)])))
+        out.append((f'dup-columns-pos3|1|{dn}||', select([(col('v'), None), (col('k'), None), (col('v'), None), (col('id'), None)], from_='t', order_by=[A.OrderBy(3, d), A.OrderBy(4, ASC)])))
     # an output alias that re-uses the name of a table column for ANOTHER expression: ORDER BY <name> means the output column
     nv, lk = (A.Neg(col('v')), 'v'), (F('length', col('k')), 'k')
     for d in (ASC, DESC):
